@@ -32,7 +32,7 @@ func (hookC09) sent(x *fleetExec, e engine.Event, nd *knode, m *kmsg) {
 	if err := proto.Unmarshal(w.buf.Bytes(), streamed); err != nil {
 		x.fail("stream-equals-message", sig, "the bytes written by the streaming protobuf writer do not unmarshal: "+err.Error(), "a valid message", fmt.Sprintf("%x", w.buf.Bytes()))
 	}
-	if !protoSketchEqual(streamed, built) {
+	if !protoSketchEqual(streamed, built) || !proto.Equal(streamed, built) {
 		x.fail("stream-equals-message", sig, "the streamed bytes unmarshal to a message that differs from ToProto()", fmt.Sprint(built), fmt.Sprint(streamed))
 	}
 	// marshalling the in-memory message and unmarshalling it again is the identity as well
@@ -78,8 +78,8 @@ func protoStoreEqual(a, b *sketchpb.Store) bool {
 			return false
 		}
 	}
-	if len(a.GetContiguousBinCounts()) > 0 && a.GetContiguousBinIndexOffset() != b.GetContiguousBinIndexOffset() {
-		return false
+	if a.GetContiguousBinIndexOffset() != b.GetContiguousBinIndexOffset() {
+		return false // also without contiguous counts: the messages must be equal
 	}
 	return true
 }
